@@ -468,6 +468,8 @@ class C05(Harness):
                     # frame columns are NaN off their own labels; the frame's rows are in order of first appearance
                     pairs = sorted(((int(lab - s0), v) for lab, v in zip(rec["rows"], rec["vals"]) if not isn(v)), key=lambda t: t[0])
                     got = [v for _, v in pairs]
+                    # ... and the values of a cutoff's column sit on the time points cutoff + step
+                    P.check("moving-cutoff-window", [p_ for p_, _ in pairs] == [pos + h for h in fh], {"pass": pi, "cutoff_pos": pos, "what": "row labels of the column's forecasts", "labels": [p_ for p_, _ in pairs]})
                 else:
                     got = [v for v in rec["vals"] if not isn(v)]
                 P.check("moving-cutoff-window", len(got) == K, {"pass": pi})
